@@ -12,3 +12,4 @@ for s in range(n):
     for v in viols:
         if v["p"].startswith("AUX_Conf"):
             print(out, v)
+    print(out, "compared", cluster_engine.CONF.get(out), "lines", st["steps"])
